@@ -3,6 +3,7 @@
    All statements hold for ANY number of dimensions n and ANY boxes (not only grids); [wfb n b] says that
    the offsets and sizes of b both have n entries. *)
 From TS Require Import model.Base model.Reshard proofs.ReshardProofs.
+From TS Require Import gen.ChunkGen gen.ReshardGen model.ReshardGenObs proofs.ReshardInst.
 From Coq Require Import Permutation.
 
 (* _shards_get_overlap_region_wrt_saved_tensor is exactly the intersection of the two boxes:
@@ -78,26 +79,38 @@ Theorem C08_reshard_dense : forall (E : Type) (n : nat) (G : coord -> E) (shards
 Proof. intros E n G shards shape I. exact (reshard_dense n G shards shape I). Qed.
 Print Assumptions C08_reshard_dense.
 
-(* prepare_read, given distinct (location, byte_range) per saved shard: the read plan is in entry order without
-   repetition (strictly increasing indices); it lists exactly the saved shards that overlap some destination
-   shard; and the consumer of each request carries exactly that shard's own regions, in destination order. *)
-Theorem C08_each_needed_shard_read_once : forall (E : Type) (shards : list (sshard E)) (dboxes : list box),
+(* prepare_read, given distinct (location, byte_range) per saved shard, and for ANY three key expressions (insertion
+   into the dictionary, membership test, lookup) that are one injective function of (location, byte_range): the
+   read plan is in entry order without repetition (strictly increasing indices); it lists exactly the saved shards
+   that overlap some destination shard; and the consumer of each request carries exactly that shard's own regions,
+   in destination order.  [key_pair] (the tuple (location, byte_range_tuple)) is such a function. *)
+Theorem C08_each_needed_shard_read_once : forall (E : Type) (kins kmem kget : keyfn),
+  (forall l b l' b', kins l b = kins l' b' -> l = l' /\ b = b') ->
+  (forall l b, kmem l b = kins l b) -> (forall l b, kget l b = kins l b) ->
+  forall (shards : list (sshard E)) (dboxes : list box),
   NoDup (map s_key shards) ->
-  Sorted.StronglySorted Z.lt (read_plan shards dboxes) /\
-  (forall j, In j (read_plan shards dboxes) <->
+  Sorted.StronglySorted Z.lt (read_plan kins kmem kget shards dboxes) /\
+  (forall j, In j (read_plan kins kmem kget shards dboxes) <->
      exists s, 0 <= j /\ nth_error shards (Z.to_nat j) = Some s /\
                exists db, In db dboxes /\ overlaps db (s_box s) = true) /\
-  (forall j s rs, In (j, s, rs) (read_reqs_full shards dboxes) ->
+  (forall j s rs, In (j, s, rs) (read_reqs_full kins kmem kget shards dboxes) ->
      nth_error shards (Z.to_nat j) = Some s /\ rs = own_regions (s_box s) dboxes).
-Proof. intros E shards dboxes. exact (read_plan_once shards dboxes). Qed.
+Proof. intros E kins kmem kget Kinj Kmem Kget shards dboxes. exact (read_plan_once kins kmem kget Kinj Kmem Kget shards dboxes). Qed.
 Print Assumptions C08_each_needed_shard_read_once.
 
-(* The execution as coded (regions grouped per (location, byte_range), one consumer per read request applying its
-   region list to the destination tensors) computes exactly [load] (every overlapping pair copied once). *)
-Theorem C08_grouped_execution_is_load : forall (E : Type) (shards : list (sshard E)) (dsts : list (dshard E)),
-  NoDup (map s_key shards) -> load_grouped shards dsts = load shards dsts.
-Proof. intros E shards dsts. exact (load_grouped_eq_load shards dsts). Qed.
+(* The execution as coded (regions grouped per dictionary key, one consumer per read request applying its region
+   list to the destination tensors) computes exactly [load] (every overlapping pair copied once). *)
+Theorem C08_grouped_execution_is_load : forall (E : Type) (kins kmem kget : keyfn),
+  (forall l b l' b', kins l b = kins l' b' -> l = l' /\ b = b') ->
+  (forall l b, kmem l b = kins l b) -> (forall l b, kget l b = kins l b) ->
+  forall (shards : list (sshard E)) (dsts : list (dshard E)),
+  NoDup (map s_key shards) -> load_grouped kins kmem kget shards dsts = load shards dsts.
+Proof. intros E kins kmem kget Kinj Kmem Kget shards dsts. exact (load_grouped_eq_load kins kmem kget Kinj Kmem Kget shards dsts). Qed.
 Print Assumptions C08_grouped_execution_is_load.
+
+(* the pair (location, byte_range_tuple) is an admissible key; the location alone is not (two pieces of one slab) *)
+Example C08_key_pair_injective : forall l b l' b', key_pair l b = key_pair l' b' -> l = l' /\ b = b'.
+Proof. intros l b l' b' H. injection H; auto. Qed.
 
 (* subdivide_shard along any dim with any chunk length >= 1 (hence any max-shard-size threshold and element size):
    the pieces are well-formed, pairwise disjoint, and their union is exactly the shard; each piece (a narrowed
@@ -199,9 +212,10 @@ Proof. vm_compute. reflexivity. Qed.
 (* the grouped execution and the read plan on the same example: all six saved shards are needed by the 3x2 grid;
    a dense 1x3 destination needs only the first *)
 Example C08_example_plan :
-  read_plan ex_saved ex_dst_boxes = [0; 1; 2; 3; 4; 5] /\
-  read_plan ex_saved [dense_box [1; 3]] = [0] /\
-  map (fun dt => rs_to_list (bsz (d_box (fst dt))) (snd dt)) (combine ex_dsts (load_grouped ex_saved ex_dsts)) =
+  read_plan key_pair key_pair key_pair ex_saved ex_dst_boxes = [0; 1; 2; 3; 4; 5] /\
+  read_plan key_pair key_pair key_pair ex_saved [dense_box [1; 3]] = [0] /\
+  map (fun dt => rs_to_list (bsz (d_box (fst dt))) (snd dt))
+      (combine ex_dsts (load_grouped key_pair key_pair key_pair ex_saved ex_dsts)) =
   map (fun dt => rs_to_list (bsz (d_box (fst dt))) (snd dt)) (combine ex_dsts (load ex_saved ex_dsts)).
 Proof. vm_compute. repeat split; reflexivity. Qed.
 
@@ -210,3 +224,161 @@ Example C08_example_subdivide :
   map snd (subdivide (mkBox [2; 4] [3; 3]) 0 4 20) =
   [mkBox [2; 4] [1; 3]; mkBox [3; 4] [1; 3]; mkBox [4; 4] [1; 3]].
 Proof. vm_compute. reflexivity. Qed.
+
+(* ================================================================================================================
+   The same statements about the code as it is NOW.  gen/ReshardGen.v is regenerated on every run from
+   io_preparers/sharded_tensor.py and manifest.py by translator/gen_reshard.py (statement by statement: the loop of
+   _shards_get_overlap_region_wrt_saved_tensor, get_views, the copy of consume_buffer, the two loops of prepare_read
+   with their three dictionary-key expressions and the ReadReq fields, _get_global_shape, _validate_shape,
+   get_tensor_shape); gen/ChunkGen.v (translator/gen_chunk.py) holds the arithmetic of subdivide_shard.
+   proofs/ReshardInst.v shows that these terms equal the hand-written model the theorems above are about.
+   ================================================================================================================ *)
+
+(* The generated region loop yields, for every dimension i in order, the tuple (i, saved offset, current offset,
+   length) of the exact intersection: C08_region_correct holds for its last three components. *)
+Theorem C08_generated_region_correct : forall (n : nat) (saved cur : box), wfb n saved -> wfb n cur ->
+  let R := drop_dims (g_overlap_region saved cur) in
+  dims_of (g_overlap_region saved cur) = map fst (indexed R) /\ length R = n /\
+  (forall c, in_range (zeros (r_len R)) (r_len R) c = true ->
+     vadd (boff saved) (vadd (r_src R) c) = vadd (boff cur) (vadd (r_dst R) c) /\
+     in_box saved (vadd (boff saved) (vadd (r_src R) c)) = true /\
+     in_box cur (vadd (boff cur) (vadd (r_dst R) c)) = true /\
+     in_local saved (vadd (r_src R) c) = true /\
+     in_local cur (vadd (r_dst R) c) = true) /\
+  (forall g, in_box saved g = true -> in_box cur g = true ->
+     exists c, in_range (zeros (r_len R)) (r_len R) c = true /\
+               vadd (boff saved) (vadd (r_src R) c) = g /\
+               vadd (boff cur) (vadd (r_dst R) c) = g /\
+               forall c', in_range (zeros (r_len R)) (r_len R) c' = true ->
+                          (vadd (boff saved) (vadd (r_src R) c') = g \/ vadd (boff cur) (vadd (r_dst R) c') = g) ->
+                          c' = c).
+Proof.
+  intros n saved cur Ws Wc. rewrite g_overlap_region_eq. destruct (with_dims_drop (overlap_region saved cur)) as [-> ->].
+  split; [reflexivity|]. split; [exact (region_length n saved cur Ws Wc)|]. exact (C08_region_correct n saved cur Ws Wc).
+Qed.
+Print Assumptions C08_generated_region_correct.
+
+(* The generated get_views + copy of one consumer step, applied to the generated region of a saved box and a
+   destination box, assigns to the destination exactly the elements of the intersection, each from the saved
+   tensor's element at the same global coordinate, and nothing else (it is the hand model's load_step). *)
+Theorem C08_generated_consumer_step : forall (E : Type) (n : nat) (s : sshard E) (db : box) (t : tensor E) (x : coord),
+  wfb n (s_box s) -> wfb n db -> overlaps db (s_box s) = true ->
+  g_consume_one (g_overlap_region (s_box s) db) (bsz (s_box s)) (bsz db) (s_data s) t x =
+  if in_local db x && in_box (s_box s) (vadd (boff db) x)
+  then s_data s (vsub (vadd (boff db) x) (boff (s_box s))) else t x.
+Proof.
+  intros E n s db t x Ws Wd Ov. rewrite g_overlap_region_eq.
+  rewrite g_consume_one_eq by (pose proof (region_length n (s_box s) db Ws Wd); destruct Ws, Wd; lia).
+  pose proof (load_step_spec n db s t x Wd Ws) as H. unfold load_step, writes in H. rewrite Ov in H. exact H.
+Qed.
+Print Assumptions C08_generated_consumer_step.
+
+(* C08_reshard_correct for the generated prepare_read executed with the generated consumers: saved shards pairwise
+   disjoint with distinct (location, byte_range), each holding G restricted; ANY destination shards (a dense
+   tensor is one box at the origin) with arbitrary initial contents.  prepare_read does not raise, and afterwards
+   every destination element covered by a saved shard holds G there, taken from the only saved shard containing
+   it, and every other element is untouched. *)
+Theorem C08_generated_reshard_correct : forall (E : Type) (n : nat) (G : coord -> E) (shards : list (sshard E))
+                                               (out_shape : list Z) (dsts : list (dshard E)),
+  shards <> [] -> (forall s, In s shards -> wfb n (s_box s)) -> (forall d, In d dsts -> wfb n (d_box d)) ->
+  NoDup (map s_key shards) -> shards_disjoint shards ->
+  (forall s, In s shards -> forall c, in_local (s_box s) c = true -> s_data s c = G (vadd (boff (s_box s)) c)) ->
+  exists ts, load_gen shards out_shape dsts = Some ts /\ length ts = length dsts /\
+    forall k d t, nth_error dsts k = Some d -> nth_error ts k = Some t ->
+    forall c, in_local (d_box d) c = true ->
+      let g := vadd (boff (d_box d)) c in
+      (forall s, In s shards -> in_box (s_box s) g = true ->
+         t c = G g /\ t c = s_data s (vsub g (boff (s_box s))) /\
+         (forall s', In s' shards -> in_box (s_box s') g = true -> s' = s)) /\
+      ((forall s, In s shards -> in_box (s_box s) g = false) -> t c = d_data d c).
+Proof. intros E n G shards out_shape dsts. exact (generated_reshard_correct n G shards out_shape dsts). Qed.
+Print Assumptions C08_generated_reshard_correct.
+
+(* The three key expressions of the generated prepare_read are one injective function of (location, byte_range),
+   hence (C08_each_needed_shard_read_once) the generated plan reads exactly the needed saved shards, once each,
+   in entry order; each request names the path and byte range of the shard whose entry its consumer holds. *)
+Theorem C08_generated_each_needed_shard_read_once : forall (E : Type) (shards : list (sshard E)) (out_shape : list Z)
+                                                           (dboxes : list box),
+  shards <> [] -> NoDup (map s_key shards) ->
+  exists reqs plan, g_prepare_read shards out_shape dboxes = Some reqs /\
+    read_plan_gen shards out_shape dboxes = Some plan /\ plan = map (fun q : greq E => fst (fst (snd q))) reqs /\
+    Sorted.StronglySorted Z.lt plan /\
+    (forall j, In j plan <->
+       exists s, 0 <= j /\ nth_error shards (Z.to_nat j) = Some s /\
+                 exists db, In db dboxes /\ overlaps db (s_box s) = true) /\
+    (forall path br j s rs, In (path, br, (j, s, rs)) reqs ->
+       nth_error shards (Z.to_nat j) = Some s /\ path = s_loc s /\ br = s_br s /\
+       rs = map lift_reg (own_regions (s_box s) dboxes)).
+Proof.
+  intros E shards out_shape dboxes Ne ND.
+  pose proof (read_plan_gen_eq shards out_shape dboxes Ne) as Hp.
+  destruct (read_plan_once g_key_insert g_key_member g_key_lookup g_key_insert_inj g_key_member_eq g_key_lookup_eq
+              shards dboxes ND) as (S1 & S2 & S3).
+  unfold read_plan_gen in Hp. destruct (g_prepare_read shards out_shape dboxes) as [reqs|] eqn:Eq; [|discriminate].
+  exists reqs, (map (fun q : greq E => fst (fst (snd q))) reqs).
+  split; [reflexivity|]. split; [unfold read_plan_gen; rewrite Eq; reflexivity|]. split; [reflexivity|].
+  cbn [option_map] in Hp. injection Hp as Hp. rewrite Hp. split; [exact S1|]. split; [exact S2|].
+  intros path br j s rs Hin. unfold g_prepare_read in Eq.
+  destruct (g_global_shape (map s_box shards)); [|discriminate]. rewrite g_validate_shape_true in Eq.
+  injection Eq as Eq. rewrite g_read_reqs_eq in Eq. subst reqs.
+  apply in_map_iff in Hin as ([[j' s'] rs'] & Hq & Hin). unfold lift_req in Hq. cbn [fst snd] in Hq.
+  inversion Hq; subst. destruct (S3 j s rs' Hin) as [Hn ->]. repeat split; try reflexivity. exact Hn.
+Qed.
+Print Assumptions C08_generated_each_needed_shard_read_once.
+
+(* subdivide_shard with the arithmetic generated by gen_chunk.py: disjoint cover, for every threshold. *)
+Theorem C08_generated_subdivide_preserves_disjoint_cover : forall (n : nat) (b : box) (dim : nat) (esize maxb : Z),
+  wfb n b -> (dim < n)%nat ->
+  let ps := map snd (subdivide_g b dim esize maxb) in
+  ForallOrdPairs box_disjoint ps /\
+  (forall p, In p ps -> wfb n p) /\
+  (forall g, in_box b g = true <-> exists p, In p ps /\ in_box p g = true).
+Proof.
+  intros n b dim esize maxb W Hd. rewrite subdivide_g_eq.
+  exact (C08_subdivide_preserves_disjoint_cover n b dim esize maxb W Hd).
+Qed.
+Print Assumptions C08_generated_subdivide_preserves_disjoint_cover.
+
+(* The generated _get_global_shape is the per-dimension maximum corner, the generated get_tensor_shape agrees with
+   it on every family of boxes that lies inside [0, shape) and covers its last element, _validate_shape never
+   raises (so a destination of another shape is loaded on the overlap), and the dense destination box is the
+   whole tensor at the origin. *)
+Theorem C08_generated_shapes : forall (n : nat) (bs : list box) (shape : list Z),
+  length shape = n -> (forall i, 0 <= nth i shape 0) -> (forall b, In b bs -> wfb n b) ->
+  (forall b, In b bs -> forall i, (i < n)%nat -> nth i (boff b) 0 + nth i (bsz b) 0 <= nth i shape 0) ->
+  (exists b, In b bs /\ in_box b (map (fun e => e - 1) shape) = true) ->
+  g_tensor_shape bs = Some shape /\ g_global_shape bs = Some shape /\
+  (forall out_shape, g_validate_shape out_shape shape = true) /\
+  (forall out_shape, g_dense_box out_shape = dense_box out_shape).
+Proof.
+  intros n bs shape Ls Pos W Inside Cov. rewrite g_tensor_shape_eq, g_global_shape_eq.
+  destruct (C08_shapes_agree_on_partitions n bs shape Ls Pos W Inside Cov) as [A B].
+  split; [exact A|]. split; [exact B|]. split; [intros o; apply g_validate_shape_true|exact g_dense_box_eq].
+Qed.
+Print Assumptions C08_generated_shapes.
+
+Theorem C08_generated_global_shape_is_corner : forall (n : nat) (bs : list box),
+  bs <> [] -> (forall b, In b bs -> wfb n b) ->
+  exists gs, g_global_shape bs = Some gs /\ length gs = n /\
+    forall i, (i < n)%nat ->
+      0 <= nth i gs 0 /\
+      (forall b, In b bs -> nth i (boff b) 0 + nth i (bsz b) 0 <= nth i gs 0) /\
+      (nth i gs 0 = 0 \/ exists b, In b bs /\ nth i gs 0 = nth i (boff b) 0 + nth i (bsz b) 0).
+Proof. intros n bs. rewrite g_global_shape_eq. exact (global_shape_is_corner n bs). Qed.
+Print Assumptions C08_generated_global_shape_is_corner.
+
+(* the generated terms on the 5x7 example: saved as an uneven 2x3 grid in ONE slab (same location, consecutive byte
+   ranges), loaded into the 3x2 grid and into a dense 4x9 tensor; the plan; a region with its dims; the shapes *)
+Example C08_example_generated :
+  let saved := map (fun s => mkS (s_box s) 7 [100 * s_loc s; 100 * s_loc s + 100] (s_data s)) ex_saved in
+  option_map (fun ts => map (fun dt => rs_to_list (bsz (d_box (fst dt))) (snd dt)) (combine ex_dsts ts))
+             (load_gen saved [5; 7] ex_dsts)
+  = Some (map (fun b => map (fun c => ex_G (vadd (boff b) c)) (coords (bsz b))) ex_dst_boxes) /\
+  option_map (fun ts => map (rs_to_list [4; 9]) ts) (load_gen saved [4; 9] [ex_dense])
+  = Some [map (fun c => if nth 1 c 0 <? 7 then ex_G c else ex_I c) (coords [4; 9])] /\
+  read_plan_gen saved [5; 7] ex_dst_boxes = Some [0; 1; 2; 3; 4; 5] /\
+  read_plan_gen saved [1; 3] [g_dense_box [1; 3]] = Some [0] /\
+  g_overlap_region (mkBox [2; 4] [3; 3]) (mkBox [1; 5] [3; 2]) = [(0, 0, 1, 2); (1, 1, 0, 2)] /\
+  g_global_shape ex_saved_boxes = Some [5; 7] /\ g_tensor_shape ex_saved_boxes = Some [5; 7] /\
+  map snd (subdivide_g (mkBox [2; 4] [3; 3]) 0 4 20) = [mkBox [2; 4] [1; 3]; mkBox [3; 4] [1; 3]; mkBox [4; 4] [1; 3]].
+Proof. vm_compute. repeat split; reflexivity. Qed.
